@@ -17,6 +17,8 @@ import (
 
 	"github.com/zclconf/go-cty/cty"
 	"github.com/zclconf/go-cty/cty/convert"
+	"github.com/zclconf/go-cty/cty/function"
+	"github.com/zclconf/go-cty/cty/function/stdlib"
 	"pgregory.net/rapid"
 
 	"verif/harness/facet"
@@ -61,6 +63,8 @@ type state struct {
 	sets  []*vset
 	log   []string
 	flags map[string]bool
+	// fnCalls counts the standard-library calls that succeeded.
+	fnCalls int
 }
 
 func fingerprint(v cty.Value) string { return cty.VerifFingerprint(v) }
@@ -222,6 +226,9 @@ func runHistory(c *facet.Ctx, h Hist) error {
 	for k := range st.flags {
 		c.Label(k)
 	}
+	if st.fnCalls >= 2 {
+		c.NonTrivial()
+	}
 	if st.flags["mutated-accessor-result"] || st.flags["mutated-ctor-input"] || st.flags["copy-then-add-big-bucket"] || st.flags["marked-derived"] {
 		c.NonTrivial()
 	}
@@ -256,6 +263,37 @@ func (st *state) step(s Step) {
 		if !out.Panicked {
 			st.push(out.Val, "op:"+s.Op)
 			st.flags["op-derived"] = true
+		}
+	case "fn":
+		// a standard-library call on live values (its result becomes a live
+		// value, so that values with library-made types feed later calls);
+		// the type-only prediction is asked for as well
+		f, ok := histFns[s.Op]
+		if !ok {
+			return
+		}
+		args := []cty.Value{st.pick(s.A)}
+		switch s.Op {
+		case "slice":
+			args = append(args, cty.NumberIntVal(int64(s.N%3)), cty.NumberIntVal(int64(s.N%3+s.C%3)))
+		case "chunklist", "element":
+			args = append(args, cty.NumberIntVal(int64(s.N%3+1)))
+		case "lookup":
+			args = append(args, cty.StringVal(s.Attr), st.pick(s.B))
+		case "concat", "merge", "zipmap", "setunion", "coalescelist":
+			args = append(args, st.pick(s.B))
+			if s.C%3 == 0 {
+				args = append(args, st.pick(s.C))
+			}
+		}
+		st.log = append(st.log, fmt.Sprintf("fn %s(#%d,#%d,...)", s.Op, mod(s.A, len(st.lives)), mod(s.B, len(st.lives))))
+		guarded(func() { _, _ = f.ReturnTypeForValues(args) })
+		var r cty.Value
+		var err error
+		if !guarded(func() { r, err = f.Call(args) }) && err == nil {
+			st.push(r, "fn:"+s.Op)
+			st.flags["fn-derived"] = true
+			st.fnCalls++
 		}
 	case "conv":
 		a, b := st.pick(s.A), st.pick(s.B)
@@ -618,6 +656,67 @@ func removeOne(sorted []string, x string) []string {
 
 // ---------------------------------------------------------------- generators
 
+var histFns = map[string]function.Function{
+	"concat": stdlib.ConcatFunc, "merge": stdlib.MergeFunc, "flatten": stdlib.FlattenFunc, "slice": stdlib.SliceFunc,
+	"keys": stdlib.KeysFunc, "values": stdlib.ValuesFunc, "zipmap": stdlib.ZipmapFunc, "reverselist": stdlib.ReverseListFunc,
+	"coalescelist": stdlib.CoalesceListFunc, "setunion": stdlib.SetUnionFunc, "chunklist": stdlib.ChunklistFunc,
+	"compact": stdlib.CompactFunc, "distinct": stdlib.DistinctFunc, "element": stdlib.ElementFunc, "lookup": stdlib.LookupFunc,
+	"jsonencode": stdlib.JSONEncodeFunc, "jsondecode": stdlib.JSONDecodeFunc,
+}
+
+var histFnNames = func() []string {
+	var ns []string
+	for n := range histFns {
+		ns = append(ns, n)
+	}
+	sort.Strings(ns)
+	// the functions that assemble a result type out of their arguments' type
+	// internals are drawn more often: only chains of them (a result extended
+	// twice, in different ways) can show shared type storage
+	for i := 0; i < 8; i++ {
+		ns = append(ns, "concat")
+	}
+	for i := 0; i < 4; i++ {
+		ns = append(ns, "merge", "slice")
+	}
+	return ns
+}()
+
+// genHistFns: histories dominated by standard-library calls over structural
+// values (tuples, objects, lists, maps; known, unknown and null).
+func genHistFns(t *rapid.T) Hist {
+	h := Hist{}
+	npool := rapid.IntRange(2, 5).Draw(t, "npool")
+	to := gen.TypeOpts{Depth: 2, Dynamic: true}
+	vo := gen.ValOpts{Null: true, Unknown: true, Marks: true, Simple: true}
+	for i := 0; i < npool; i++ {
+		ty := gen.Type(to).Draw(t, "type")
+		if rapid.Bool().Draw(t, "structural") {
+			ty = rapid.SampledFrom([]spec.T{spec.Tuple(spec.String, spec.Bool), spec.Tuple(spec.Number, spec.String, spec.Bool), spec.List(spec.String),
+				spec.Object(spec.Attr{Name: "a", T: spec.String}, spec.Attr{Name: "id", T: spec.Number}), spec.Object(spec.Attr{Name: "a", T: spec.Bool}, spec.Attr{Name: "x", T: spec.String}),
+				spec.Map(spec.String), spec.Tuple(spec.List(spec.String), spec.Tuple(spec.String))}).Draw(t, "stype")
+		}
+		h.Pool = append(h.Pool, gen.Value(ty, vo).Draw(t, "val"))
+	}
+	nsteps := rapid.IntRange(3, 12).Draw(t, "nsteps")
+	for i := 0; i < nsteps; i++ {
+		s := Step{K: rapid.SampledFrom([]string{"fn", "fn", "fn", "fn", "fn", "fn", "op", "conv", "acc"}).Draw(t, "kind")}
+		s.A = rapid.IntRange(0, 11).Draw(t, "a")
+		s.B = rapid.IntRange(0, 11).Draw(t, "b")
+		s.C = rapid.IntRange(0, 11).Draw(t, "c")
+		s.N = rapid.IntRange(0, 13).Draw(t, "n")
+		s.Attr = rapid.SampledFrom([]string{"a", "b", "id", "x", "y"}).Draw(t, "attr")
+		switch s.K {
+		case "fn":
+			s.Op = rapid.SampledFrom(histFnNames).Draw(t, "fn")
+		case "op":
+			s.Op = rapid.SampledFrom(ops.AllOps).Draw(t, "op")
+		}
+		h.Steps = append(h.Steps, s)
+	}
+	return h
+}
+
 func genHist(setHeavy bool) func(t *rapid.T) Hist {
 	return func(t *rapid.T) Hist {
 		h := Hist{}
@@ -678,6 +777,11 @@ func init() {
 		Prop: "C20", Name: "history/fingerprints", Quick: 15000, Thorough: 150000, Shards: 4,
 		Rule: "pool of 2..5 generated values (nulls, unknowns, marks, nesting) and 0..2 ValueSets, then 3..14 steps: operation / conversion / refinement / re-marking (Mark, WithMarks, WithSameMarks, MarkWithPaths on values that may already be marked or were extracted from marked containers) deriving a new live value, accessor call followed by mutation of the returned Go data, constructor call followed by mutation of the Go data passed in, ValueSet step; after every step every live value's deep fingerprint and every ValueSet's contents must be unchanged; non-trivial = at least one mutate-after-accessor or mutate-after-constructor step took effect, or an Add into a bucket of >= 3 after a Copy",
 		Gen:  genHist(false), Check: runHistory,
+	})
+	facet.Register(facet.F[Hist]{
+		Prop: "C20", Name: "history/stdlib", Quick: 20000, Thorough: 200000, Shards: 4,
+		Rule: "pool of 2..5 structural values (tuples, objects, lists, maps: known, unknown, null, marked) and 3..12 steps, most of them calls of standard-library functions that build their result type from their arguments' types (concat, merge, flatten, slice, keys, values, zipmap, reverselist, coalescelist, setunion, chunklist, compact, distinct, element, lookup, jsonencode, jsondecode: Call and the type-only prediction) on live values; results become live values and feed later calls; after every step every live value's deep fingerprint (types included) must be unchanged; non-trivial = at least two calls succeeded",
+		Gen:  genHistFns, Check: runHistory,
 	})
 	facet.Register(facet.F[Hist]{
 		Prop: "C20", Name: "history/set-copy", Quick: 15000, Thorough: 150000, Shards: 4,
